@@ -18,6 +18,14 @@ TEXT_ATOMS = [
 ]
 LOOKALIKES = ["yes", "null", "~", "1e3", "2020-01-01", "0x1F", ": x", "- a", "#c", "{a: b}", "|",
               "No", "1.0", "01:02:03", "[1, 2]"]
+# long text: beyond the line width of the YAML / XML emitters, with blanks where a line could be folded
+LONG_ATOMS = [" " + "x" * 90, "word " * 30, "x" * 200, "a  b" + " c" * 60, "first line\n" + "y" * 100 + " z", "\u00e4" * 90,
+              "x" * 78 + " y z", "k" * 5000,
+              " lead " + "word " * 20 + "end", "two  blanks " * 10 + "end", "tab\tin a long text " * 6 + "end"]
+# ids that are valid but not of the kind uuid4() produces (time-based, name-based, hand-assigned, all ones)
+ID_FORMS = ["6ba7b810-9dad-11d1-80b4-00c04fd430c8", "6fa459ea-ee8a-3ca4-894e-db77e160355e",
+            "886313e1-3b8a-5372-9b90-0c9aee199e5d", "00000000-0000-0000-0000-0000000000a1",
+            "ffffffff-ffff-ffff-ffff-ffffffffffff"]
 UNREPRESENTABLE = "a\x01b"
 CSV_SENSITIVE = ["a", "a,b", 'a"b', '"a"', '"', "[a]", "[", "]", "a\nb", "", " a ", "[a,b]", "a\rb"]
 
